@@ -198,7 +198,10 @@ func (w *fileWriter) Commit(ctx context.Context, count int64) error {
 	var b [8]byte
 	binary.LittleEndian.PutUint64(b[:], uint64(count))
 	if _, err := w.Write(b[:]); err != nil {
-		return nil
+		// The entry is incomplete: it must not be published, and the
+		// failure must be reported.
+		w.File.Discard(ctx)
+		return err
 	}
 	return closeFile(ctx, w.File)
 }
